@@ -18,6 +18,10 @@ Proof.
     + apply IH; assumption.
 Qed.
 
+Lemma forall2_impl : forall (A B : Type) (P Q : A -> B -> Prop) l l',
+  (forall a b, P a b -> Q a b) -> Forall2 P l l' -> Forall2 Q l l'.
+Proof. intros A B P Q l l' H F. induction F; constructor; auto. Qed.
+
 (* ---- rounds: for any two complete schedules (any capacities) of one well formed script *)
 Theorem rounds_schedule_independent_proof : forall n R sc cap cap' sg sg',
   wf_script n R sc ->
@@ -48,7 +52,7 @@ Proof.
   rewrite (complete_all_rounds n' R sc' cap' WF' sg' C') in H'.
   eapply (forall2_join (fun rd k => Permutation (concat rd) (expected_round sc k)) (expected_round sc)); [|exact H|].
   - intros rd k HH. exact HH.
-  - eapply Forall2_impl; [|exact H']. intros rd k HH. cbn beta. rewrite HE. exact HH.
+  - eapply forall2_impl; [|exact H']. intros rd k HH. cbn beta. rewrite HE. exact HH.
 Qed.
 
 (* ---- from rounds to bytes *)
@@ -154,8 +158,11 @@ Lemma push_all_indep_n : forall R single pack n n' l st,
 Proof.
   intros R single pack n n' l. induction l as [|inp l IH]; intros st; [repeat split; reflexivity|].
   cbn [push_all fst snd map]. destruct (push_one_indep_n R single pack n n' st inp) as [E1 [E2 E3]].
-  rewrite <- E1. destruct (IH (fst (push_one R single pack n st inp))) as [F1 [F2 F3]].
-  rewrite !tasks_of_app, !ctg_app, map_app, E2, F2, <- F1. rewrite <- E2, E3, F3. repeat split; reflexivity.
+  destruct (IH (fst (push_one R single pack n st inp))) as [F1 [F2 F3]].
+  split; [|split].
+  - rewrite <- E1. exact F1.
+  - rewrite !tasks_of_app, !ctg_app. rewrite <- E1. rewrite E2, F2. reflexivity.
+  - rewrite tasks_of_app, ctg_app, map_app, E3, F3. reflexivity.
 Qed.
 
 Definition key_of (inp : input) : ckey := fst (fst inp).
@@ -243,4 +250,132 @@ Proof.
   - cbn. repeat split; try (left; reflexivity); try (right; intros [H|H]; try discriminate; try contradiction;
       repeat (destruct H as [H|H]; try discriminate; try contradiction)).
   - vm_compute. repeat split; reflexivity.
+Qed.
+
+(* ---- the two modes, end to end: any thread counts, capacities, protocol schedules, buffer distributions,
+        claim orders and finalize completion orders give the same parts in the same file order *)
+Section Modes.
+  Variables G Buf Res Part : Type.
+  Variable segment : contig -> list N.
+  Variable classify : G -> list (skey * N) -> G * list Buf.
+  Variable flushf : Buf -> Buf * list (N * Part) * Res.
+  Variable res_gid : Res -> N.
+  Variable commit : G -> list Res -> list Buf -> G.
+  Variable fin_seq : G -> G * list (N * Part).
+  Variable fin_packs : G -> list (N * Part).
+  Variable meta_parts : G -> list (N * Part).
+  Hypothesis classify_streams_disjoint :
+    forall g l, streams_disjoint Buf Res Part (map flushf (snd (classify g l))).
+  Hypothesis fin_packs_distinct_streams : forall g, NoDup (map fst (fin_packs g)).
+  Notation out := (output G Buf Res Part segment classify flushf res_gid commit fin_seq fin_packs meta_parts).
+
+  Theorem multifile_deterministic_proof : forall n n' first rest cap cap' sg sg' cl cl' s3 s3' g0,
+    (0 < n)%nat -> (0 < n')%nat ->
+    (2 * Z.of_nat (length (first ++ rest)) + 4 < det_prio_start - 1000000)%Z ->
+    NoDup (map key_of (first ++ rest)) ->
+    let sc := multifile_script current_rule n first rest in
+    let sc' := multifile_script current_rule n' first rest in
+    completeb (run cap sg (init n sc)) = true -> completeb (run cap' sg' (init n' sc')) = true ->
+    out g0 (attach (s_rounds (run cap sg (init n sc))) cl) s3
+    = out g0 (attach (s_rounds (run cap' sg' (init n' sc'))) cl') s3'.
+  Proof.
+    intros n n' first rest cap cap' sg sg' cl cl' s3 s3' g0 Hn Hn' Hb Hk sc sc' C C'.
+    destruct (multifile_ctg_indep current_rule n n' first rest) as [E1 E2].
+    eapply (output_deterministic G Buf Res Part segment classify flushf res_gid commit fin_seq fin_packs meta_parts
+              classify_streams_disjoint fin_packs_distinct_streams n n' 2 sc sc').
+    - apply multifile_wf; assumption.
+    - apply multifile_wf; assumption.
+    - apply expected_round_same_ctg. exact E1.
+    - unfold sc. rewrite E2. exact Hk.
+    - exact C.
+    - exact C'.
+  Qed.
+
+  Theorem singlefile_deterministic_proof : forall n n' pack ref rest cap cap' sg sg' cl cl' s3 s3' g0,
+    (0 < n)%nat -> (0 < n')%nat ->
+    contiguous [] (ref ++ rest) ->
+    (2 * Z.of_nat (length (ref ++ rest)) + 4 < det_prio_start - 1000000)%Z ->
+    NoDup (map key_of (ref ++ rest)) ->
+    let sc := singlefile_script current_rule n pack ref rest in
+    let sc' := singlefile_script current_rule n' pack ref rest in
+    completeb (run cap sg (init n sc)) = true -> completeb (run cap' sg' (init n' sc')) = true ->
+    out g0 (attach (s_rounds (run cap sg (init n sc))) cl) s3
+    = out g0 (attach (s_rounds (run cap' sg' (init n' sc'))) cl') s3'.
+  Proof.
+    intros n n' pack ref rest cap cap' sg sg' cl cl' s3 s3' g0 Hn Hn' Hc Hb Hk sc sc' C C'.
+    destruct (singlefile_ctg_indep current_rule n n' pack ref rest) as [E1 E2].
+    eapply (output_deterministic G Buf Res Part segment classify flushf res_gid commit fin_seq fin_packs meta_parts
+              classify_streams_disjoint fin_packs_distinct_streams n n' (sf_rounds n pack ref rest) sc sc').
+    - apply singlefile_wf; assumption.
+    - rewrite (sf_rounds_indep n n'). apply singlefile_wf; assumption.
+    - apply expected_round_same_ctg. exact E1.
+    - unfold sc. rewrite E2. exact Hk.
+    - exact C.
+    - exact C'.
+  Qed.
+End Modes.
+
+(* round composition alone, per mode *)
+Theorem multifile_rounds_proof : forall n n' first rest cap cap' sg sg',
+  (0 < n)%nat -> (0 < n')%nat ->
+  (2 * Z.of_nat (length (first ++ rest)) + 4 < det_prio_start - 1000000)%Z ->
+  let sc := multifile_script current_rule n first rest in
+  let sc' := multifile_script current_rule n' first rest in
+  completeb (run cap sg (init n sc)) = true -> completeb (run cap' sg' (init n' sc')) = true ->
+  Forall2 same_comp (s_rounds (run cap sg (init n sc))) (s_rounds (run cap' sg' (init n' sc'))) /\
+  length (s_rounds (run cap sg (init n sc))) = 2%nat.
+Proof.
+  intros n n' first rest cap cap' sg sg' Hn Hn' Hb sc sc' C C'.
+  destruct (multifile_ctg_indep current_rule n n' first rest) as [E1 _].
+  split.
+  - eapply rounds_two_scripts; try eassumption; try (apply multifile_wf; assumption).
+    apply expected_round_same_ctg. exact E1.
+  - eapply complete_all_rounds; [apply multifile_wf; assumption|exact C].
+Qed.
+
+Theorem singlefile_rounds_proof : forall n n' pack ref rest cap cap' sg sg',
+  (0 < n)%nat -> (0 < n')%nat -> contiguous [] (ref ++ rest) ->
+  (2 * Z.of_nat (length (ref ++ rest)) + 4 < det_prio_start - 1000000)%Z ->
+  let sc := singlefile_script current_rule n pack ref rest in
+  let sc' := singlefile_script current_rule n' pack ref rest in
+  completeb (run cap sg (init n sc)) = true -> completeb (run cap' sg' (init n' sc')) = true ->
+  Forall2 same_comp (s_rounds (run cap sg (init n sc))) (s_rounds (run cap' sg' (init n' sc'))).
+Proof.
+  intros n n' pack ref rest cap cap' sg sg' Hn Hn' Hc Hb sc sc' C C'.
+  destruct (singlefile_ctg_indep current_rule n n' pack ref rest) as [E1 _].
+  eapply (rounds_two_scripts n n' (sf_rounds n pack ref rest)); try eassumption.
+  - apply singlefile_wf; assumption.
+  - rewrite (sf_rounds_indep n n'). apply singlefile_wf; assumption.
+  - apply expected_round_same_ctg. exact E1.
+Qed.
+
+(* ---- the quiescent discipline: the round is the phase, whatever the priorities are *)
+Theorem rounds_deterministic_quiescent_proof : forall n (phs : list qphase) cap sg,
+  (0 < n)%nat -> tagged 0 phs ->
+  let s := run cap sg (init n (quiescent_script n phs)) in
+  completeb s = true ->
+  Forall2 (fun rd ph => Permutation (concat rd) (fst ph)) (s_rounds s) phs.
+Proof.
+  intros n phs cap sg Hn T s C.
+  pose proof (quiescent_wf n phs Hn T) as WF.
+  pose proof (Determinism_proto.rounds_as_intended n _ _ cap WF sg) as H. cbv zeta in H. fold s in H.
+  pose proof (complete_all_rounds n _ _ cap WF sg C) as L. fold s in L. rewrite L in H.
+  assert (G : forall (rs : list (list (list task))) (ps : list qphase) i,
+             (i + length ps = length phs)%nat -> ps = skipn i phs ->
+             Forall2 (fun rd k => Permutation (concat rd) (expected_round (quiescent_script n phs) k)) rs (seq i (length ps)) ->
+             Forall2 (fun rd ph => Permutation (concat rd) (fst ph)) rs ps).
+  { intros rs ps. revert rs. induction ps as [|p ps IH]; intros rs i Hl Hs F.
+    - inversion F. constructor.
+    - cbn [length seq] in F. inversion F as [|rd k rs' ks Hp F']; subst. constructor.
+      + pose proof (quiescent_expected n phs 0 i T) as QE. cbn [plus] in QE. rewrite QE in Hp by (cbn [length] in Hl; lia).
+        assert (EN : nth i phs ([], mk_task false (0%N, 0%N) 0 0 0 0 0) = p).
+        { clear - Hs. revert phs Hs. induction i as [|i IHi]; intros phs Hs.
+          - destruct phs; cbn [skipn] in Hs; [discriminate|]. inversion Hs. reflexivity.
+          - destruct phs; cbn [skipn] in Hs; [discriminate|]. cbn [nth]. apply IHi. exact Hs. }
+        rewrite EN in Hp. exact Hp.
+      + apply (IH rs' (S i)); [cbn [length] in Hl; lia| |exact F'].
+        clear - Hs. revert phs Hs. induction i as [|i IHi]; intros phs Hs.
+        * destruct phs; cbn [skipn] in Hs; [discriminate|]. inversion Hs. reflexivity.
+        * destruct phs; cbn [skipn] in Hs; [discriminate|]. cbn [skipn]. apply IHi. exact Hs. }
+  apply (G (s_rounds s) phs 0%nat); [reflexivity|reflexivity|exact H].
 Qed.
